@@ -647,6 +647,15 @@ class StmtMixin(CallMixin):
                         else:
                             s.locals[kname] = V.mk_int(s.locals[kname].t + 1)
                     self.check_invariant(inv_texts, s, "inv-preserve", f"loop #{ordinal} (line {line}) invariant preserved by the body", line)
+                    if not self.discovering and inv_texts:
+                        # vacuity guard: some path through the body must be able to reach its end (grouped per loop like the call covers)
+                        seen_ = self.callret_seen.setdefault(("loop", ordinal), 0)
+                        if seen_ < 3:
+                            self.callret_seen[("loop", ordinal)] = seen_ + 1
+                            from .state import Obligation
+                            self.covers.append(Obligation(f"{self.contract.key}/callret/loop{ordinal}/{seen_ + 1}", "callret", self.contract.key, line,
+                                                          f"the body of loop #{ordinal} (line {line}) can run to its end", list(s.pc), None, expect="sat",
+                                                          extra={"site": f"{self.contract.key}@loop{ordinal}"}))
                     if variant_text:
                         v1 = SpecEval(self, s, s.entry, {}).ev(S.parse_clause(variant_text)).t
                         self.oblige("variant", s, v1 < v0, f"loop #{ordinal} variant `{variant_text}` decreases", line)
